@@ -185,7 +185,10 @@ def getitem(it, base, idx, line=None):
             it.raise_py('TypeError', 'sequence indices must be integers', line)
         seq = base.seq
         n = z3.Length(seq)
-        i = norm_index(it, idx, n)
+        if it.spec() and not isinstance(idx, int):
+            i = as_term_int(idx)
+        else:
+            i = norm_index(it, idx, n)
         ok = z3.And(i >= 0, i < n)
         if not it.spec() and not ctx.branch(ok, 'index@%s' % line):
             it.raise_py('IndexError', 'index out of range', line)
@@ -198,9 +201,14 @@ def getitem(it, base, idx, line=None):
             if is_strlike(idx) or (isinstance(idx, SAny) and False):
                 return lower(PV.dvals(t)[pv.kenc(idx)])
             if is_intlike(idx):
+                # specifications index tuples / lists (not int-keyed dicts); a symbolic index is taken as
+                # non-negative (quantifier ranges guarantee it), a negative literal counts from the end
                 seq = z3.If(PV.is_PTuple(t), PV.titems(t), PV.litems(t))
-                i = norm_index(it, idx, z3.Length(seq))
-                return lower(z3.If(PV.is_PDict(t), PV.dvals(t)[pv.kenc(idx)], seq[i]))
+                if isinstance(idx, int) and not isinstance(idx, bool):
+                    i = norm_index(it, idx, z3.Length(seq))
+                else:
+                    i = as_term_int(idx)
+                return lower(seq[i])
             return lower(PV.dvals(t)[pv.kenc(idx)])
         if ctx.branch(PV.is_PTuple(t), 'istuple@%s' % line):
             return getitem(it, VSeqIter(PV.titems(t)), idx, line)
@@ -395,6 +403,20 @@ def make_dict(it, args, kwargs, ordered='dict'):
             d.make_symbolic()
             d.arr = pairs_to_map(seq)
             d.from_pairs = seq
+            # dict(list of (key, value) pairs), trusted: every key is present; a present key comes from some
+            # pair; with pairwise distinct keys every pair keeps its value
+            ctx = it.ctx
+            i, j = ctx.fresh(z3.IntSort(), 'pi'), ctx.fresh(z3.IntSort(), 'pj')
+            k = ctx.fresh(z3.StringSort(), 'pk')
+            n = z3.Length(seq)
+            key = lambda q: pv.kenc_t(PV.titems(seq[q])[0])
+            val = lambda q: PV.titems(seq[q])[1]
+            ctx.note('dict(list of pairs): trusted view pairs_to_map (keys present, values from pairs)')
+            ctx.assume(z3.ForAll([i], z3.Implies(z3.And(i >= 0, i < n), d.arr[key(i)] != pv.PAbsent)))
+            ctx.assume(z3.ForAll([k], z3.Implies(d.arr[k] != pv.PAbsent,
+                                                 z3.Exists([j], z3.And(j >= 0, j < n, key(j) == k, val(j) == d.arr[k])))))
+            ctx.assume(z3.Implies(distinct_keys(seq),
+                                  z3.ForAll([i], z3.Implies(z3.And(i >= 0, i < n), d.arr[key(i)] == val(i)))))
         else:
             raise Unsupported('dict(%r)' % (a,))
     for k, v in kwargs.items():
@@ -402,7 +424,20 @@ def make_dict(it, args, kwargs, ordered='dict'):
     return d
 
 
-pairs_to_map = z3.Function('pairs_to_map', PVSeq, pv.PVArr)   # dict(list of pairs): last binding wins (trusted view)
+pairs_to_map = z3.Function('pairs_to_map', PVSeq, pv.PVArr)
+distinct_keys = z3.Function('distinct_keys', PVSeq, z3.BoolSort())     # the first components of the pairs differ pairwise
+
+
+def sp_distinct_labels(it, args, kwargs):
+    """DISTINCT_LABELS(pairs): the first components differ pairwise (definition added at every mention)"""
+    seq = it.seq_term(args[0])
+    ctx = it.ctx
+    i, j = ctx.fresh(z3.IntSort(), 'di'), ctx.fresh(z3.IntSort(), 'dj')
+    n = z3.Length(seq)
+    key = lambda q: PV.titems(seq[q])[0]
+    ctx.assume(distinct_keys(seq) == z3.ForAll([i, j], z3.Implies(z3.And(i >= 0, i < n, j >= 0, j < n, i != j),
+                                                                 key(i) != key(j))))
+    return mkbool(distinct_keys(seq))   # dict(list of pairs): last binding wins (trusted view)
 
 
 def setitem(it, base, idx, v, line=None):
@@ -1519,13 +1554,37 @@ def b_sorted(it, args, kwargs):
     if isinstance(v, VKeys):
         raise Unsupported('sorted() over the keys of a symbolic mapping')
     seq = it.seq_term(v)
-    it.ctx.note('sorted() over a sequence of symbolic length: a permutation of its argument (trusted; the order '
-                'itself is not modelled)')
+    it.ctx.note('sorted() over a sequence of symbolic length is modelled as the sequence itself (some permutation): '
+                'obligations proved about a loop over it must not depend on the visiting order (assumption A-sorted)')
+    return VList(seq=seq)
+
+
+sort_perm = z3.Function('sort_perm', PVSeq, z3.IntSort(), z3.IntSort())     # position in the input of the j-th output
+sort_inv = z3.Function('sort_inv', PVSeq, z3.IntSort(), z3.IntSort())
+
+
+def sorted_facts(it, seq):
+    """py_sorted(seq) with the facts that make it a permutation of seq (index bijection sort_perm / sort_inv)"""
+    ctx = it.ctx
     r = py_sorted(seq)
-    x = it.ctx.fresh(PV, 'sx')
-    it.ctx.assume(z3.Length(r) == z3.Length(seq))
-    it.ctx.assume(z3.ForAll([x], z3.Contains(r, z3.Unit(x)) == z3.Contains(seq, z3.Unit(x))))
-    return VList(seq=r)
+    done = getattr(it, '_sorted_done', None)
+    if done is None:
+        done = it._sorted_done = set()
+    if seq.get_id() in done:
+        return r
+    done.add(seq.get_id())
+    n = z3.Length(seq)
+    j, i = ctx.fresh(z3.IntSort(), 'sj'), ctx.fresh(z3.IntSort(), 'si')
+    ctx.assume(z3.Length(r) == n)
+    ctx.assume(z3.ForAll([j], z3.Implies(z3.And(j >= 0, j < n),
+                                         z3.And(sort_perm(seq, j) >= 0, sort_perm(seq, j) < n,
+                                                sort_inv(seq, sort_perm(seq, j)) == j,
+                                                r[j] == seq[sort_perm(seq, j)])), patterns=[r[j]]))
+    ctx.assume(z3.ForAll([i], z3.Implies(z3.And(i >= 0, i < n),
+                                         z3.And(sort_inv(seq, i) >= 0, sort_inv(seq, i) < n,
+                                                sort_perm(seq, sort_inv(seq, i)) == i,
+                                                r[sort_inv(seq, i)] == seq[i])), patterns=[seq[i]]))
+    return r
 
 
 def symbolic_sort(it, keyed):
@@ -2009,7 +2068,7 @@ def sp_strval(it, args, kwargs):
 
 
 SPEC_FUNCS = {
-    'is_tuple': sp_is_tuple, 'is_list': sp_is_list, 'is_dict': sp_is_dict, 'is_obj': sp_is_obj, 'has': sp_has,
+    'DISTINCT_LABELS': sp_distinct_labels, 'is_tuple': sp_is_tuple, 'is_list': sp_is_list, 'is_dict': sp_is_dict, 'is_obj': sp_is_obj, 'has': sp_has,
     'strval': sp_strval,
     'is_num': sp_is_num, 'is_exc': sp_is_exc, 'truthy': sp_truthy, 'is_none': sp_is_none, 'is_str': sp_is_str, 'is_int': sp_is_int,
     'absent': sp_absent, 'matches': sp_matches, 'py_int': sp_py_int, 'py_int_base': sp_py_int_base,
